@@ -136,6 +136,72 @@ func sharesOutpoint(a, b *wire.MsgTx) bool {
 	return false
 }
 
+// judgeBlockProofs is the C04 oracle applied inside histories: right after the node processed block
+// b, every relevant transaction of b must have been notified during that step with a proof the
+// independent verifier accepts against the header the node now holds at that height, with the true
+// index and depth zero.
+func judgeBlockProofs(sn *stepNode, specs []TxSpec, b *verifkit.TBlock, members []int, idOf map[bitcoin.Hash32]int, res *txHistResult) {
+	height := sn.node.blocks.LastHeight()
+	held, err := sn.node.blocks.Hash(sn.ctx, height)
+	if err != nil || *held != b.Hash {
+		return
+	}
+	index := map[bitcoin.Hash32]int{}
+	for k, tx := range b.Txs {
+		index[*tx.TxHash()] = k
+	}
+	proven := map[bitcoin.Hash32]bool{}
+	for _, e := range sn.h1.snapshot() {
+		if e.Step != sn.step || (e.Kind != "tx" && e.Kind != "update") || e.State.MerkleProof == nil {
+			continue
+		}
+		mp := e.State.MerkleProof
+		i, known := idOf[e.TxID]
+		k, inBlock := index[e.TxID]
+		if !inBlock {
+			// e.g. the depth update of a tx that is unconfirmed again after a reorg still carries the
+			// proof of its orphaned block: outside the statement of C04, which speaks about the
+			// transactions of the processed block only
+			_ = known
+			res.flags["stale-proof-on-other-tx"] = true
+			continue
+		}
+		if *mp.BlockHeader.BlockHash() != b.Hash {
+			res.add("C04/proof-wrong-header", fmt.Sprintf("tx%d confirmed in block %s at height %d (step %d): the proof's header is not the header the node holds at that height", i, b.Name, height, sn.step))
+			continue
+		}
+		root, ok := verifkit.VerifyBranch(e.TxID, mp.Index, mp.Path, mp.DuplicatedIndexes)
+		if !ok || root != b.Header.MerkleRoot {
+			res.add("C04/proof-invalid", fmt.Sprintf("tx%d confirmed in block %s (step %d): the independent verifier rejects the proof (index %d, path %d, duplicates %v)", i, b.Name, sn.step, mp.Index, len(mp.Path), mp.DuplicatedIndexes))
+			continue
+		}
+		if int(mp.Index) != k {
+			res.add("C04/proof-wrong-index", fmt.Sprintf("tx%d is at index %d of block %s but its proof says %d", i, k, b.Name, mp.Index))
+			continue
+		}
+		if e.State.UnconfirmedDepth != 0 {
+			res.add("C04/confirmed-depth-nonzero", fmt.Sprintf("tx%d confirmed in block %s notified with unconfirmed depth %d", i, b.Name, e.State.UnconfirmedDepth))
+			continue
+		}
+		proven[e.TxID] = true
+	}
+	for _, i := range members {
+		if !specRelevant(specs[i]) {
+			continue
+		}
+		res.flags["relevant-tx-confirmed"] = true
+		h := *b.Txs[0].TxHash()
+		for _, tx := range b.Txs {
+			if j, ok := idOf[*tx.TxHash()]; ok && j == i {
+				h = *tx.TxHash()
+			}
+		}
+		if !proven[h] {
+			res.add("C04/confirmed-without-proof", fmt.Sprintf("relevant tx%d is in block %s which the node processed at step %d, but that step produced no notification for it with a valid merkle proof", i, b.Name, sn.step))
+		}
+	}
+}
+
 type txHistResult struct {
 	violations []*nodeViolation
 	flags      map[string]bool
@@ -249,6 +315,7 @@ func txHistRun(sc *TxHistScenario) (res *txHistResult) {
 		}
 		if sn.node.blocks.LastHeight() == before+1 {
 			b := tree.ByHash[*sn.node.blocks.LastHash()]
+			judgeBlockProofs(sn, sc.Txs, b, minedBlocks[b], idOf, res)
 			for _, i := range minedBlocks[b] {
 				noteSeen(i)
 				if _, seen := m.inBlock[i]; !seen || m.orphaned[i] {
